@@ -101,7 +101,7 @@ theorem ostep_inv (g : G) (hC : Conv g) (ns : List Nat) (hcl : ∀ p c, c ∈ g.
         · rw [hcn] at h1; rw [← h1]; exact upd_self v n
       rw [heq]
       refine ⟨h, fun _ => ?_, fun x _ hv => hv⟩
-      have := congrFun heq n; rw [upd_same] at this; rw [← this]
+      have := congrArg (fun w : Lab => w n) heq; simp only [upd_same] at this; rw [← this]
     | false =>
       have hvn : upd v n false n = false := upd_same _ _ _
       simp only [Bool.false_eq_true, if_false]
@@ -188,13 +188,13 @@ theorem calc_gfp (g : G) (hC : Conv g) (ns : List Nat) (hcl : ∀ p c, c ∈ g.c
       unfold Sys at this; simpa [hk] using this
 
 /-- greatest post-fixed points are unique -/
-theorem gfp_unique (S : Lab → Lab) (v v' : Lab)
+theorem gfp_unique (S : Lab → Nat → Bool) (v v' : Lab)
     (h1 : ∀ x, v x = S v x) (h1' : ∀ x, v' x = S v' x)
     (h2 : ∀ w : Lab, (∀ x, w x = true → S w x = true) → le w v)
     (h2' : ∀ w : Lab, (∀ x, w x = true → S w x = true) → le w v') : v = v' := by
   have a : le v v' := h2' v (fun x hx => by rw [← h1 x]; exact hx)
   have b : le v' v := h2 v' (fun x hx => by rw [← h1' x]; exact hx)
-  funext x
+  apply Lab.ext; intro x
   cases hv : v x with
   | true => exact (a x hv).symm
   | false =>
